@@ -79,6 +79,7 @@ def register(db):
     register_long_years(db)
     register_from_string_acceptance(db)
     register_period_acceptance(db)
+    register_period_rejection(db)
     FROM = [
         ("XmlDate", ["valid_date(result.year, result.month, result.day)"]),
         ("XmlTime", ["valid_time(result.hour, result.minute, result.second, result.fractional_second)"]),
@@ -559,3 +560,16 @@ def register_long_years(db):
                      ("consumes-exactly-the-year", f"self.vidx == len(head) + len(yd){' + 1' if sign else ''}")] + KEEP,
             raises={}, returns="int", modifies=["self.vidx"], properties=PR,
         ))
+
+
+def register_period_rejection(db):
+    """XmlPeriod._parse_period, rejection direction: whatever the text, a period that is returned has a month in
+    1..12 (when it has one) and a day that exists in that month of a leap year (when it has one) - '--02-30',
+    '--04-31', '--13', '---32', '--00', '---00' are rejected; only ValueError escapes."""
+    db.add(Contract(
+        f"{DT}:XmlPeriod._parse_period", variant="denotes-a-real-period",
+        params={"cls": "opaque:type", "value": "str"},
+        ensures=[("month-and-day-exist",
+                  "valid_date(0, ite(result.month is None, 1, result.month), ite(result.day is None, 1, result.day))")],
+        raises={"ValueError": True}, properties=["C06", "C15"],
+    ))
